@@ -1,13 +1,19 @@
 /-
   C07 — after a crash the filesystem holds exactly what was made durable.
+
+  The statements are about the model of the code as it is in /repo now: `stepFx Fixes.committed` with
+  the durable spec `sStepFx Fixes.committed` (a rename is durable as a whole when either parent
+  directory is synced).  `…_before` = the code before the six committed repairs (`step`, `sStep`).
 -/
 import TvFs.Model.Fs
 import TvFs.Model.Spec
 import TvFs.Model.Patterns
 import TvFs.Proofs.Crash
 import TvFs.Proofs.Invents
+import TvFs.Proofs.InventsFx
 import TvFs.Proofs.Durable4
 import TvFs.Proofs.Repairs
+import TvFs.Proofs.CommittedSpec
 
 namespace TV.C07
 open TV.Fs
@@ -18,11 +24,16 @@ open TV.Fs
     of whose proper ancestors are durable directories. -/
 def C07_Statement : Prop :=
   ∀ (cfg : Cfg) (h : List (Op × Ora)) (ora : Ora) (p : Path),
+    let st := runStFx Fixes.committed cfg St.init (h ++ [(Op.crash, ora)])
+    let sp := sRunStFx Fixes.committed cfg Spec.init (h ++ [(Op.crash, ora)])
+    ancestorsAreDirs sp.l p = true → viewOfFx Fixes.committed st.fs p = sView sp.l p
+
+/-- the same statement for the code (and the durable spec) before the repairs -/
+def C07_Statement_before : Prop :=
+  ∀ (cfg : Cfg) (h : List (Op × Ora)) (ora : Ora) (p : Path),
     let st := runSt cfg St.init (h ++ [(Op.crash, ora)])
     let sp := sRunSt cfg Spec.init (h ++ [(Op.crash, ora)])
     ancestorsAreDirs sp.l p = true → viewOf st.fs p = sView sp.l p
-
-/-! ### witnesses -/
 
 def a : Path := [97]
 def b : Path := [98]
@@ -31,15 +42,13 @@ def R : Flags := { r := true }
 def WC : Flags := { w := true, c := true }
 def q (l : List Op) : List (Op × Ora) := l.map fun o => (o, {})
 
-/-- F-C07-10: data written as /b, made durable (entry) by sync_dir, renamed to /a, fsynced through
-    the new name: the fsync flushes nothing, the crash loses the data although it was synced -/
-def hist10 : List Op := [.writeFile b [90], .syncDir [], .rename b a, .open 0 a R, .syncAll 0]
+/-- view of `p` after `h; crash` on the flagged model / on the flagged durable spec -/
+def implAfterCrash (fx : Fixes) (h : List Op) (p : Path) : View :=
+  viewOfFx fx (runStFx fx {} St.init (q h ++ [(Op.crash, ({} : Ora))])).fs p
+def specAfterCrash (fx : Fixes) (h : List Op) (p : Path) : View :=
+  sView (sRunStFx fx {} Spec.init (q h ++ [(Op.crash, ({} : Ora))])).l p
 
-theorem C07_witness_fsyncAcrossRename : ¬ C07_Statement := by
-  intro h
-  have := h {} (q hist10) {} b (by decide)
-  revert this
-  decide
+/-! ### open findings: the committed model still violates the statement -/
 
 /-- F-C07-2: write (never fsynced), durable entry, unlink + re-create + fsync of the *new* file:
     the fsync makes the old file's unsynced bytes durable under the old, still durable, entry -/
@@ -48,6 +57,17 @@ def hist2 : List Op := [.writeFile a [65, 66], .syncDir [], .unlink a, .open 0 a
 theorem C07_witness_recreate : ¬ C07_Statement := by
   intro h
   have := h {} (q hist2) {} a (by decide)
+  revert this
+  decide
+
+/-- F-C07-3 (what is left of it): a file created under the old name of a pending rename and fsynced —
+    its bytes become durable in the renamed file, the new file is empty after the crash -/
+def hist3c : List Op :=
+  [.open 0 a WC, .close 0, .rename a b, .writeFile a [65, 66], .open 1 a R, .syncAll 1, .syncDir []]
+
+theorem C07_witness_dataAcrossRename : ¬ C07_Statement := by
+  intro h
+  have := h {} (q hist3c) {} a (by decide)
   revert this
   decide
 
@@ -73,7 +93,7 @@ theorem C07_witness_renameDir : ¬ C07_Statement := by
 
 /-- F-C07-8: a write + fsync through a handle whose file was renamed is lost -/
 def hist8 : List Op :=
-  [.open 0 a WC, .syncDir [], .rename a b, .writeAt 0 0 [88, 89], .syncAll 0, .syncDir []]
+  [.open 0 a WC, .syncDir [], .rename a b, .syncDir [], .writeAt 0 0 [88, 89], .syncAll 0]
 
 theorem C07_witness_staleHandle : ¬ C07_Statement := by
   intro h
@@ -81,30 +101,107 @@ theorem C07_witness_staleHandle : ¬ C07_Statement := by
   revert this
   decide
 
-/-- F-C07-7: rmdir of a directory that holds a renamed-in file succeeds, sync_dir of the parent makes
-    the removal durable -/
+/-! ### repaired findings: `witness_F_…` / `C07_witness_…` on the code before the repair,
+    `fixed_F_…` on the committed model -/
+
+/-- F-C07-3, first half (69c39a4 + 5c93fae): data written and fsynced through the new name of a
+    renamed file was lost -/
+def hist3 : List Op :=
+  [.writeFile a [65, 66], .syncDir [], .rename a b, .open 0 b { w := true }, .writeAt 0 0 [88, 89], .syncAll 0,
+   .syncDir []]
+theorem witness_F_C07_3 : implAfterCrash {} hist3 b ≠ specAfterCrash {} hist3 b := by decide
+theorem fixed_F_C07_3 :
+    implAfterCrash Fixes.committed hist3 b = specAfterCrash Fixes.committed hist3 b ∧
+    implAfterCrash Fixes.committed hist3 b = .file 2 [88, 89] := by decide
+
+/-- F-C07-7 (8aa6329): rmdir of a directory that holds a renamed-in file succeeded, sync_dir of the
+    parent made the removal durable -/
 def hist7 : List Op := [.mkdir d, .writeFile a [65], .rename a (d ++ a), .rmdir d, .syncDir []]
 
-theorem C07_witness_rmdirRenamedIn : ¬ C07_Statement := by
+theorem C07_witness_rmdirRenamedIn : ¬ C07_Statement_before := by
   intro h
   have := h {} (q hist7) {} d (by decide)
   revert this
   decide
 
-/-- F-C07-11: /d/a durable, rename /d/a /b, sync_dir /d (source) then sync_dir / (destination):
-    both parents were synced after the rename, yet /b is not durable and the file is lost -/
+theorem witness_F_C07_7 : implAfterCrash {} hist7 d ≠ specAfterCrash {} hist7 d := by decide
+theorem fixed_F_C07_7 : implAfterCrash Fixes.committed hist7 d = specAfterCrash Fixes.committed hist7 d := by
+  decide
+
+/-- F-C07-9 (977a543): mkdir /d, open /d with create, sync_dir /: /d came back as a regular file -/
+def hist9 : List Op := [.mkdir d, .open 0 d WC, .syncDir []]
+theorem witness_F_C07_9 : implAfterCrash {} hist9 d ≠ specAfterCrash {} hist9 d := by decide
+theorem fixed_F_C07_9 : implAfterCrash Fixes.committed hist9 d = specAfterCrash Fixes.committed hist9 d := by
+  decide
+
+/-- F-C07-10 (5c93fae): data written as /b, made durable (entry) by sync_dir, renamed to /a, fsynced
+    through the new name: the fsync flushed nothing, the crash lost the data although it was synced -/
+def hist10 : List Op := [.writeFile b [90], .syncDir [], .rename b a, .open 0 a R, .syncAll 0]
+
+theorem C07_witness_fsyncAcrossRename : ¬ C07_Statement_before := by
+  intro h
+  have := h {} (q hist10) {} b (by decide)
+  revert this
+  decide
+
+theorem witness_F_C07_10 : implAfterCrash {} hist10 b ≠ specAfterCrash {} hist10 b := by decide
+theorem fixed_F_C07_10 :
+    implAfterCrash Fixes.committed hist10 b = specAfterCrash Fixes.committed hist10 b ∧
+    implAfterCrash Fixes.committed hist10 b = .file 1 [90] := by decide
+
+/-- F-C07-11 (3508629): /d/a durable, rename /d/a /b, sync_dir /d (source) then sync_dir /
+    (destination): both parents were synced after the rename, yet /b was not durable -/
 def hist11 : List Op :=
   [.mkdir d, .open 0 (d ++ a) WC, .close 0, .syncDir [], .syncDir d, .rename (d ++ a) b, .syncDir d, .syncDir []]
 
-theorem C07_witness_crossDirRename : ¬ C07_Statement := by
+theorem C07_witness_crossDirRename : ¬ C07_Statement_before := by
   intro h
   have := h {} (q hist11) {} b (by decide)
   revert this
   decide
 
+theorem witness_F_C07_11 : implAfterCrash {} hist11 b ≠ specAfterCrash {} hist11 b := by decide
+theorem fixed_F_C07_11 :
+    implAfterCrash Fixes.committed hist11 b = specAfterCrash Fixes.committed hist11 b ∧
+    implAfterCrash Fixes.committed hist11 b = .file 0 [] ∧
+    implAfterCrash Fixes.committed hist11 (d ++ a) = .none := by decide
+/-- …also when only the source directory is synced: the rename is durable as a whole -/
+def hist11b : List Op :=
+  [.mkdir d, .open 0 (d ++ a) WC, .close 0, .syncDir [], .syncDir d, .rename (d ++ a) b, .syncDir d]
+theorem fixed_F_C07_11_sourceOnly :
+    implAfterCrash Fixes.committed hist11b b = specAfterCrash Fixes.committed hist11b b ∧
+    implAfterCrash Fixes.committed hist11b b = .file 0 [] := by decide
+/-- …and syncing only the destination no longer leaves a stale durable entry under the old name -/
+def hist11c : List Op :=
+  [.mkdir d, .open 0 a WC, .close 0, .syncDir [], .rename a (d ++ a), .syncDir d, .open 1 a WC, .syncAll 1]
+theorem witness_F_C07_11_stale : implAfterCrash {} hist11c a ≠ specAfterCrash {} hist11c a := by decide
+theorem fixed_F_C07_11_stale :
+    implAfterCrash Fixes.committed hist11c a = specAfterCrash Fixes.committed hist11c a := by decide
+theorem fixed_F_C07_11_general (fx : Fixes) (path : Path) (syn : List Path) (src dst : Path)
+    (hfx : fx.syncRenameBoth = true) :
+    (syncedUpdFx fx path syn (.rename src dst)).contains dst = true ∧
+    (src ≠ dst → (syncedUpdFx fx path syn (.rename src dst)).contains src = false) :=
+  syncedUpdFx_rename fx path syn src dst hfx
+
+/-- all committed repairs together on every C07 canonical history they address -/
+theorem fixed_all_C07 :
+    implAfterCrash Fixes.committed hist3 b = specAfterCrash Fixes.committed hist3 b ∧
+    implAfterCrash Fixes.committed hist7 d = specAfterCrash Fixes.committed hist7 d ∧
+    implAfterCrash Fixes.committed hist9 d = specAfterCrash Fixes.committed hist9 d ∧
+    implAfterCrash Fixes.committed hist10 b = specAfterCrash Fixes.committed hist10 b ∧
+    implAfterCrash Fixes.committed hist11 b = specAfterCrash Fixes.committed hist11 b := by decide
+
+/-! ### F-C07-5: verified candidate repair that was not taken (`renameKind`) -/
+
+def fx5 : Fixes := { Fixes.committed with renameKind := true }
+theorem witness_F_C07_5 : implAfterCrash Fixes.committed hist5 d ≠ specAfterCrash Fixes.committed hist5 d := by
+  decide
+theorem fixed_F_C07_5 : implAfterCrash fx5 hist5 d = specAfterCrash fx5 hist5 d := by decide
+
 /-! ### what is proved -/
 
-/-- crash ∘ crash = crash (any block sizes, any torn-write oracles) -/
+/-- crash ∘ crash = crash (any block sizes, any torn-write oracles); `Fs::crash` is untouched by the
+    repairs -/
 theorem crash_idempotent (s : Fs) (b b' : Option Nat) (t t' : List Nat) :
     crash (crash s b t) b' t' = crash s b t := crash_crash s b b' t t'
 
@@ -139,16 +236,8 @@ theorem unsynced_entry_lost (s : Fs) (b : Option Nat) (t : List Nat) (p : Path)
 theorem pending_rolled_back (s : Fs) (t : List Nat) (ops : List POp) :
     crash { s with pending := ops } none t = crash { s with pending := [] } none t := rfl
 
-/-- `C07_partial`: the full statement restricted to the flat fragment — histories of any length over
-    any number of files directly under the root and any number of handles: open with every flag
-    combination (create, create_new, append, truncate of empty files), positional and cursor reads and
-    writes with holes and overlaps, extending set_len, sync_all, sync_data, sync_dir of the root,
-    metadata / exists / fs::read / fs::write — crashed after any prefix (the fragment is prefix closed)
-    in the atomic-write configuration, for every torn-write oracle.  After the crash a file is present
-    iff the root was synced after its creation, with the content of its last data sync; everything
-    else is rolled back.  Proof: relation `D` between (persisted_files, synced_entries) and the
-    inode-level durable image, `dsim_step`, `crash_view`. -/
-theorem C07_partial (h : List Op) (hf : flatRun Live.init h = true) (ora : Ora) (n : Nat) :
+/-- the durable refinement for the code before the repairs (relation `D`, `dsim_step`, `crash_view`) -/
+theorem C07_partial_before (h : List Op) (hf : flatRun Live.init h = true) (ora : Ora) (n : Nat) :
     let st := runSt {} St.init (quiet h ++ [(Op.crash, ora)])
     let sp := sRunSt {} Spec.init (quiet h ++ [(Op.crash, ora)])
     ancestorsAreDirs sp.l [n] = true → viewOf st.fs [n] = sView sp.l [n] := by
@@ -159,6 +248,23 @@ theorem C07_partial (h : List Op) (hf : flatRun Live.init h = true) (ora : Ora) 
   rw [runSt_append, sRunSt_append]
   exact crash_view hD ora.torn ora.torn n
 
+/-- `C07_partial`: the full statement restricted to the flat fragment — histories of any length over
+    any number of files directly under the root and any number of handles: open with every flag
+    combination (create, create_new, append, truncate of empty files), positional and cursor reads and
+    writes with holes and overlaps, extending set_len, sync_all, sync_data, sync_dir of the root,
+    metadata / exists / read_dir / fs::read / fs::write — crashed after any prefix (the fragment is
+    prefix closed) in the atomic-write configuration, for every torn-write oracle.  After the crash a
+    file is present iff the root was synced after its creation, with the content of its last data sync;
+    everything else is rolled back.  Proof: inside the fragment the committed repairs change no step of
+    the implementation model (`stepFx_c`) and the ghost of the repaired durable spec stays empty
+    (`sStepFx_c`), so `C07_partial_before` carries over (`c07_partial_committed`). -/
+theorem C07_partial (h : List Op) (hf : flatRun Live.init h = true) (ora : Ora) (n : Nat) :
+    let st := runStFx Fixes.committed {} St.init (quiet h ++ [(Op.crash, ora)])
+    let sp := sRunStFx Fixes.committed {} Spec.init (quiet h ++ [(Op.crash, ora)])
+    ancestorsAreDirs sp.l [n] = true → viewOfFx Fixes.committed st.fs [n] = sView sp.l [n] := by
+  intro st sp _
+  exact c07_partial_committed h hf ora n
+
 /-- the flat fragment is not trivial: two files, one made durable (entry and data), one only
     fsynced, later writes lost -/
 def flatExample : List Op :=
@@ -166,15 +272,25 @@ def flatExample : List Op :=
    .writeAt 0 0 [67], .open 1 b WC, .writeAt 1 0 [68], .syncAll 1, .setLen 0 5]
 
 example : flatRun Live.init flatExample = true := by decide
-example : viewOf (runSt {} St.init (quiet flatExample ++ [(Op.crash, ({} : Ora))])).fs a = .file 3 [0, 65, 66] := by decide
-example : viewOf (runSt {} St.init (quiet flatExample ++ [(Op.crash, ({} : Ora))])).fs b = .none := by decide
+example : implAfterCrash Fixes.committed flatExample a = .file 3 [0, 65, 66] := by decide
+example : implAfterCrash Fixes.committed flatExample b = .none := by decide
 
 def bytesWritten (h : List (Op × Ora)) : List Nat := h.flatMap fun x => opData x.1
 
 /-- bytes that were never written never appear: at any time (before or after any number of crashes,
     for every block size and every oracle) every visible byte of every file is 0 or was supplied by
-    some write call of the history -/
-theorem never_invents (cfg : Cfg) (h : List (Op × Ora)) (p : Path) :
+    some write call of the history.  Holds for every combination of repair flags, in particular for
+    the committed code. -/
+theorem never_invents (fx : Fixes) (cfg : Cfg) (h : List (Op × Ora)) (p : Path) :
+    ∀ x ∈ contentFx fx (runStFx fx cfg St.init h).fs p, x = 0 ∨ x ∈ bytesWritten h := by
+  have hg : GoodFs (bytesWritten h) (runStFx fx cfg St.init h).fs := by
+    apply runStFx_good fx cfg h St.init (init_good _)
+    intro x hx y hy
+    exact Or.inr (List.mem_flatMap.mpr ⟨x, hx, hy⟩)
+  exact contentFx_ok fx hg p
+
+/-- …and for the code before the repairs -/
+theorem never_invents_before (cfg : Cfg) (h : List (Op × Ora)) (p : Path) :
     ∀ x ∈ content (runSt cfg St.init h).fs p, x = 0 ∨ x ∈ bytesWritten h := by
   have hg : GoodFs (bytesWritten h) (runSt cfg St.init h).fs := by
     apply runSt_good cfg h St.init (init_good _)
@@ -182,84 +298,7 @@ theorem never_invents (cfg : Cfg) (h : List (Op × Ora)) (p : Path) :
     exact Or.inr (List.mem_flatMap.mpr ⟨x, hx, hy⟩)
   exact content_ok hg p
 
-example : content (runSt {} St.init (q [.writeFile a [7, 8]])).fs a = [7, 8] := by decide
-
-/-! ### repairs (areas/fs/repairs/*.patch): `witness_F_…` on the code as found, `fixed_F_…` on the
-    model with the repair's flag on -/
-
-/-- view of `p` after `h; crash` on the flagged model / on the (flagged) durable spec -/
-def implAfterCrash (fx : Fixes) (h : List Op) (p : Path) : View :=
-  viewOfFx fx (runStFx fx {} St.init (q h ++ [(Op.crash, ({} : Ora))])).fs p
-def specAfterCrash (fx : Fixes) (h : List Op) (p : Path) : View :=
-  sView (sRunStFx fx {} Spec.init (q h ++ [(Op.crash, ({} : Ora))])).l p
-
-def fx5 : Fixes := { renameKind := true }
-def fx7 : Fixes := { childRenamedIn := true }
-def fx9 : Fixes := { createOverDir := true }
-def fx11 : Fixes := { syncRenameBoth := true }
-
-theorem witness_F_C07_5 : implAfterCrash {} hist5 d ≠ specAfterCrash {} hist5 d := by decide
-theorem fixed_F_C07_5 : implAfterCrash fx5 hist5 d = specAfterCrash fx5 hist5 d := by decide
-
-theorem witness_F_C07_7 : implAfterCrash {} hist7 d ≠ specAfterCrash {} hist7 d := by decide
-theorem fixed_F_C07_7 : implAfterCrash fx7 hist7 d = specAfterCrash fx7 hist7 d := by decide
-
-/-- F-C07-9: mkdir /d, open /d with create, sync_dir /: /d comes back as a regular file -/
-def hist9 : List Op := [.mkdir d, .open 0 d WC, .syncDir []]
-theorem witness_F_C07_9 : implAfterCrash {} hist9 d ≠ specAfterCrash {} hist9 d := by decide
-theorem fixed_F_C07_9 : implAfterCrash fx9 hist9 d = specAfterCrash fx9 hist9 d := by decide
-
-theorem witness_F_C07_11 : implAfterCrash {} hist11 b ≠ specAfterCrash {} hist11 b := by decide
-/-- F-C07-11 repaired: the file survives under its new name (and not under the old one) -/
-theorem fixed_F_C07_11 :
-    implAfterCrash fx11 hist11 b = specAfterCrash fx11 hist11 b ∧
-    implAfterCrash fx11 hist11 b = .file 0 [] ∧ implAfterCrash fx11 hist11 (d ++ a) = .none := by decide
-/-- …also when only the source directory is synced: the rename is durable as a whole -/
-def hist11b : List Op :=
-  [.mkdir d, .open 0 (d ++ a) WC, .close 0, .syncDir [], .syncDir d, .rename (d ++ a) b, .syncDir d]
-theorem fixed_F_C07_11_sourceOnly :
-    implAfterCrash fx11 hist11b b = specAfterCrash fx11 hist11b b ∧ implAfterCrash fx11 hist11b b = .file 0 [] := by
+example : contentFx Fixes.committed (runStFx Fixes.committed {} St.init (q [.writeFile a [7, 8]])).fs a = [7, 8] := by
   decide
-/-- …and syncing only the destination no longer leaves a stale durable entry under the old name -/
-def hist11c : List Op :=
-  [.mkdir d, .open 0 a WC, .close 0, .syncDir [], .rename a (d ++ a), .syncDir d, .open 1 a WC, .syncAll 1]
-theorem witness_F_C07_11_stale : implAfterCrash {} hist11c a ≠ specAfterCrash {} hist11c a := by decide
-theorem fixed_F_C07_11_stale : implAfterCrash fx11 hist11c a = specAfterCrash fx11 hist11c a := by decide
-/-- F-C07-11 repaired, in general: a flushed rename leaves exactly the new name in `synced_entries` -/
-theorem fixed_F_C07_11_general (fx : Fixes) (path : Path) (syn : List Path) (src dst : Path)
-    (hfx : fx.syncRenameBoth = true) :
-    (syncedUpdFx fx path syn (.rename src dst)).contains dst = true ∧
-    (src ≠ dst → (syncedUpdFx fx path syn (.rename src dst)).contains src = false) :=
-  syncedUpdFx_rename fx path syn src dst hfx
-
-def fx10 : Fixes := { fsyncResolve := true }
-theorem witness_F_C07_10 : implAfterCrash {} hist10 b ≠ specAfterCrash {} hist10 b := by decide
-/-- F-C07-10 repaired: data fsynced through the new name of a renamed file survives the crash under
-    the (still durable) old name -/
-theorem fixed_F_C07_10 :
-    implAfterCrash fx10 hist10 b = specAfterCrash fx10 hist10 b ∧ implAfterCrash fx10 hist10 b = .file 1 [90] := by
-  decide
-/-- all six repairs together on every C07 canonical history they address -/
-def fxAll : Fixes :=
-  { readOrder := true, renameKind := true, childRenamedIn := true, createOverDir := true,
-    syncRenameBoth := true, fsyncResolve := true }
-theorem fixed_all_C07 :
-    implAfterCrash fxAll hist5 d = specAfterCrash fxAll hist5 d ∧
-    implAfterCrash fxAll hist7 d = specAfterCrash fxAll hist7 d ∧
-    implAfterCrash fxAll hist9 d = specAfterCrash fxAll hist9 d ∧
-    implAfterCrash fxAll hist10 b = specAfterCrash fxAll hist10 b ∧
-    implAfterCrash fxAll hist11 b = specAfterCrash fxAll hist11 b := by decide
-
-/-- F-C07-3: data written and fsynced through the new name of a renamed file is lost -/
-def hist3 : List Op :=
-  [.writeFile a [65, 66], .syncDir [], .rename a b, .open 0 b { w := true }, .writeAt 0 0 [88, 89], .syncAll 0,
-   .syncDir []]
-def fx3and10 : Fixes := { dataKeyResolve := true, fsyncResolve := true }
-theorem witness_F_C07_3 : implAfterCrash {} hist3 b ≠ specAfterCrash {} hist3 b := by decide
-/-- repaired by the F-3 and F-10 patches together (the write is keyed by the inode's name, the fsync
-    follows the pending rename to that name) -/
-theorem fixed_F_C07_3 :
-    implAfterCrash fx3and10 hist3 b = specAfterCrash fx3and10 hist3 b ∧
-    implAfterCrash fx3and10 hist3 b = .file 2 [88, 89] := by decide
 
 end TV.C07
